@@ -14,7 +14,7 @@ git -C /repo worktree add -q --detach $WT HEAD || exit 3
 export CARGO_NET_OFFLINE=true CARGO_TARGET_DIR=$WT/target
 cp $SRC/seeded_demo.rs $WT/tests/seeded_demo.rs
 ( cd $WT && cargo test --offline --test seeded_demo > $OUT/demo_without.log 2>&1 ); W=$?
-( cd $WT && git apply $SRC/patch.diff ) || { echo "patch does not apply"; exit 3; }
+( cd $WT && git apply $SRC/patch.diff ) || { echo "patch does not apply"; git -C /repo worktree remove --force $WT; exit 3; }
 ( cd $WT && cargo test --offline --test seeded_demo > $OUT/demo_with.log 2>&1 ); D=$?
 mv $WT/tests/seeded_demo.rs $OUT/
 ( cd $WT && cargo test --workspace --offline > $OUT/suite_with.log 2>&1 ); S=$?
